@@ -132,6 +132,22 @@ type partialSite struct {
 
 func (s partialSite) Key() string { return shortFn(s.Fn) + " " + s.Expr }
 
+// AltKey: the key of the same expression attributed to the one function all static calls of
+// s.Fn come from (a slicing helper extracted from it), or "".
+func (s partialSite) AltKey(c *Ctx) string {
+	sites, ok := c.staticCallers(s.Fn)
+	if !ok || len(sites) == 0 {
+		return ""
+	}
+	owner := sites[0].Parent()
+	for _, cs := range sites {
+		if cs.Parent() != owner {
+			return ""
+		}
+	}
+	return shortFn(owner) + " " + s.Expr
+}
+
 func isGenerated(f *ast.File) bool {
 	for _, cg := range f.Comments {
 		for _, cm := range cg.List {
@@ -539,6 +555,15 @@ var partialReasons = []reasonEntry{
 // and the index is the loop variable bounded by len(b) with step 2.
 func requiresEvenLengthLoop(c *Ctx, s partialSite) (bool, string) {
 	x, idx := siteOperands(s.Instr)
+	if len(idx) == 2 {
+		// b[i:i+2]: in bounds exactly when b[i+1] is
+		if hb, ok := idx[1].(*ssa.BinOp); ok && hb.Op == token.ADD && hb.X == idx[0] {
+			if k, ok := constInt(hb.Y); ok && k == 2 {
+				return evenLengthLoopAt(s.Fn, s.Instr, x, idx[0])
+			}
+		}
+		return false, "slice bounds are not [i : i+2]"
+	}
 	if len(idx) != 1 {
 		return false, "not an index expression"
 	}
